@@ -4,7 +4,7 @@
  * reports every pair of conflicting accesses that no *real* lock orders.
  *
  * Exactly one worker thread runs at a time.  Scheduling points are the library's
- * VERIF_YIELD hooks and every lock operation routed through verif_rwlock / verif_mutex.
+ * VERIF_YIELD hooks and every pthread rwlock / mutex operation (interposed below).
  * A thread that asks for an unavailable lock becomes disabled instead of blocking. */
 #define _GNU_SOURCE
 #include "vsched.h"
@@ -110,8 +110,65 @@ static void release(void *lock)
     int me = my_tid; struct lockm *l = lock_of(lock);
     if (l->writer == me + 1) l->writer = 0; else if (l->readers[me] > 0) l->readers[me]--;
 }
-int verif_rwlock_rdlock(void *lock) { if (sched_is_active()) acquire(lock, W_RD); return pthread_rwlock_rdlock(lock); }
-int verif_rwlock_wrlock(void *lock) { if (sched_is_active()) acquire(lock, W_WR); return pthread_rwlock_wrlock(lock); }
-int verif_rwlock_unlock(void *lock) { int rc = pthread_rwlock_unlock(lock); if (sched_is_active()) { release(lock); reschedule(my_tid, SK_UNLOCK); } return rc; }
-int verif_mutex_lock(void *lock) { if (sched_is_active()) acquire(lock, W_MX); return pthread_mutex_lock(lock); }
-int verif_mutex_unlock(void *lock) { int rc = pthread_mutex_unlock(lock); if (sched_is_active()) { release(lock); reschedule(my_tid, SK_UNLOCK); } return rc; }
+
+/* ---- the pthread lock entry points the library really calls are interposed here (this executable precedes every
+ * shared object in symbol lookup), so whatever erasurecode_stdinc.h maps the library's lock names to is what gets
+ * modelled: a write lock mapped to a read lock admits two "writers", a try-lock never waits and fails when the lock
+ * is held.  The real operation is always performed too, through the next definition in lookup order (the sanitizer
+ * runtime's interceptor, then libc), so ThreadSanitizer sees the true synchronisation and nothing else. */
+#include <dlfcn.h>
+#include <errno.h>
+typedef int (*lockfn)(void *);
+static lockfn real_rd, real_wr, real_tryrd, real_trywr, real_rwun, real_mx, real_mxtry, real_mxun;
+static lockfn next_of(lockfn *slot, const char *name)
+{
+    lockfn f = __atomic_load_n(slot, __ATOMIC_ACQUIRE);
+    if (!f) { f = (lockfn)dlsym(RTLD_NEXT, name); if (!f) _exit(75); __atomic_store_n(slot, f, __ATOMIC_RELEASE); }
+    return f;
+}
+void sched_resolve_locks(void)
+{
+    next_of(&real_rd, "pthread_rwlock_rdlock"); next_of(&real_wr, "pthread_rwlock_wrlock"); next_of(&real_tryrd, "pthread_rwlock_tryrdlock");
+    next_of(&real_trywr, "pthread_rwlock_trywrlock"); next_of(&real_rwun, "pthread_rwlock_unlock");
+    next_of(&real_mx, "pthread_mutex_lock"); next_of(&real_mxtry, "pthread_mutex_trylock"); next_of(&real_mxun, "pthread_mutex_unlock");
+}
+/* a try operation: one scheduling point, then success exactly if the modelled lock is free */
+static int try_acquire(void *lock, int mode)
+{
+    int me = my_tid;
+    reschedule(me, mode == W_RD ? SK_RDLOCK : mode == W_WR ? SK_WRLOCK : SK_MUTEX);
+    struct lockm *l = lock_of(lock);
+    if (!available(l, mode, me)) return 0;
+    if (mode == W_RD) l->readers[me]++; else l->writer = me + 1;
+    return 1;
+}
+int pthread_rwlock_rdlock(pthread_rwlock_t *lock) { if (sched_is_active()) acquire(lock, W_RD); return next_of(&real_rd, "pthread_rwlock_rdlock")(lock); }
+int pthread_rwlock_wrlock(pthread_rwlock_t *lock) { if (sched_is_active()) acquire(lock, W_WR); return next_of(&real_wr, "pthread_rwlock_wrlock")(lock); }
+int pthread_rwlock_tryrdlock(pthread_rwlock_t *lock)
+{
+    if (sched_is_active() && !try_acquire(lock, W_RD)) return EBUSY;
+    return next_of(&real_tryrd, "pthread_rwlock_tryrdlock")(lock);
+}
+int pthread_rwlock_trywrlock(pthread_rwlock_t *lock)
+{
+    if (sched_is_active() && !try_acquire(lock, W_WR)) return EBUSY;
+    return next_of(&real_trywr, "pthread_rwlock_trywrlock")(lock);
+}
+int pthread_rwlock_unlock(pthread_rwlock_t *lock)
+{
+    int rc = next_of(&real_rwun, "pthread_rwlock_unlock")(lock);
+    if (sched_is_active()) { release(lock); reschedule(my_tid, SK_UNLOCK); }
+    return rc;
+}
+int pthread_mutex_lock(pthread_mutex_t *lock) { if (sched_is_active()) acquire(lock, W_MX); return next_of(&real_mx, "pthread_mutex_lock")(lock); }
+int pthread_mutex_trylock(pthread_mutex_t *lock)
+{
+    if (sched_is_active() && !try_acquire(lock, W_MX)) return EBUSY;
+    return next_of(&real_mxtry, "pthread_mutex_trylock")(lock);
+}
+int pthread_mutex_unlock(pthread_mutex_t *lock)
+{
+    int rc = next_of(&real_mxun, "pthread_mutex_unlock")(lock);
+    if (sched_is_active()) { release(lock); reschedule(my_tid, SK_UNLOCK); }
+    return rc;
+}
